@@ -647,3 +647,53 @@ def gen_all(rng, scale=1.0):
     out += gen_wellformed_bool(rng.fork(7), n(400))
     out += gen_wellformed_other(rng.fork(8), n(300))
     return out
+
+
+# ----------------------------------------------------------------------------- synthetic AELs for harness/cx_isect.cpp
+def gen_ael(rng, n_cases):
+    """lines 'AEL process top_y bot_y n (botx boty topx topy wind_dx join)*n' and a tag"""
+    out = []
+    for i in range(n_cases):
+        r = rng.below(20)
+        n = rng.range(0, 3) if r == 0 else (rng.range(13, 40) if r < 3 else rng.range(2, 12))
+        box = rng.choice([3, 8, 20, 1000, 10 ** 6, 2 ** 29 // 4, 2 ** 38]) if not rng.chance(1, 2) else rng.choice([8, 20, 200])
+        H = rng.choice([1, 2, 7, 100, max(1, box // 3), max(1, box)])
+        T = rng.range(-box, box)
+        B = T + H
+        kind = rng.below(8)
+        process = 1
+        edges = []
+        if kind <= 3:      # consistent: sorted at the bottom, arbitrary at the top, optionally extended beyond the scanbeam
+            xb = sorted(rng.range(-box, box) for _ in range(n))
+            if kind == 1:   # many ties at the bottom and at the top
+                xb = sorted(rng.range(-2, 2) for _ in range(n))
+            for k in range(n):
+                xt = rng.range(-box, box) if kind != 1 else rng.range(-2, 2)
+                if kind == 2 and rng.chance(1, 2):
+                    xt = xb[k] + rng.range(-2, 2)        # nearly parallel bundle
+                mb, mt = rng.choice([0, 0, 1, 2]), rng.choice([0, 0, 1, 3])
+                edges.append((xb[k] + mb * (xb[k] - xt), B + mb * H, xt + mt * (xt - xb[k]), T - mt * H))
+        elif kind == 4:    # completely reversed / all equal at the top
+            xb = sorted(rng.range(-box, box) for _ in range(n))
+            same = rng.chance(1, 2)
+            for k in range(n):
+                edges.append((xb[k], B, (0 if same else -xb[k]), T))
+        elif kind == 5:    # arbitrary geometry (not a consistent AEL): the sort does not care
+            for k in range(n):
+                edges.append((rng.range(-box, box), B + rng.range(0, H), rng.range(-box, box), T - rng.range(0, H)))
+        elif kind == 6:    # vertical and steep edges mixed, shared top points
+            xs = sorted(rng.range(-box, box) for _ in range(n))
+            tops = [rng.range(-box, box) for _ in range(3)]
+            for k in range(n):
+                edges.append((xs[k], B, xs[k] if rng.chance(1, 2) else rng.choice(tops), T))
+        else:              # joined neighbours (BuildIntersectList only)
+            process = 0
+            xb = sorted(rng.range(-box, box) for _ in range(n))
+            for k in range(n):
+                edges.append((xb[k], B + rng.choice([0, H]), rng.range(-box, box), T - rng.choice([0, 0, H])))
+        parts = ['AEL', str(process), str(T), str(B), str(n)]
+        for k, e in enumerate(edges):
+            join = 1 if (process == 0 and k > 0 and rng.chance(1, 3)) else 0
+            parts.append('%d %d %d %d %d %d' % (e[0], e[1], e[2], e[3], rng.choice([-1, 1]), join))
+        out.append(dict(line=' '.join(parts), n=n, kind=kind, process=process))
+    return out
